@@ -4,10 +4,14 @@ From Coq Require Import List Bool ZArith QArith String.
 From Cheetah Require Import Base.Mat Beam.Moments Lattice.Track Lattice.ZInst.
 Import ListNotations.
 
-Notation qmean := (@mean Q 0%Q 1%Q Qplus Qmult Qinv).
-Notation qcov := (@cov Q 0%Q 1%Q Qplus Qmult Qminus Qinv).
-Notation qmvec := (@mvec Q Qplus Qmult).
-Notation qcong := (@cong Q Qplus Qmult).
+(* operations that keep fractions reduced (otherwise denominators explode under vm_compute) *)
+Definition qadd (a b : Q) : Q := Qred (Qplus a b).
+Definition qmul (a b : Q) : Q := Qred (Qmult a b).
+Definition qsub (a b : Q) : Q := Qred (Qminus a b).
+Notation qmean := (@mean Q 0%Q 1%Q qadd qmul Qinv).
+Notation qcov := (@cov Q 0%Q 1%Q qadd qmul qsub Qinv).
+Notation qmvec := (@mvec Q qadd qmul).
+Notation qcong := (@cong Q qadd qmul).
 
 Definition qv7 (v : V7 Z) : V7 Q := v7map inject_Z v.
 Definition qm7 (m : M7 Z) : M7 Q := v7map qv7 m.
